@@ -888,6 +888,30 @@ func (se *specEnv) call(e *SExpr) SVal {
 			}
 		}
 		return SVal{si.Mk(parts), x.T}
+	case "apply":
+		// apply(fn, args...): the result of calling a value of a `pure` function type
+		fv := se.eval(e.Args[0])
+		if fv.T == nil {
+			sfail("apply: untyped function value")
+		}
+		ftKey, nt := functypeKey(f.subst(fv.T))
+		if nt == nil {
+			sfail("apply: %s is not a value of a named function type", e.Args[0])
+		}
+		ct := f.ctx.eng.contracts.Funcs[ftKey]
+		if ct == nil || !ct.Pure {
+			sfail("apply: function type %s has no `pure` contract", ftKey)
+		}
+		var args []Val
+		for _, a := range e.Args[1:] {
+			args = append(args, se.eval(a).V)
+		}
+		sig := nt.Underlying().(*types.Signature)
+		v := f.applyFnValue(ct, sig, f.asTerm(fv.V), args)
+		if tv, isT := v.(TupleVal); isT {
+			return SVal{tv, sig.Results()}
+		}
+		return SVal{v, sig.Results().At(0).Type()}
 	case "isstring":
 		// isstring(x): the dynamic type of the interface value x is string
 		x := se.eval(e.Args[0])
